@@ -173,6 +173,10 @@ pub fn judge(h: &History, recs: &[StepRec]) -> Result<(u32, u32), Failure> {
                     }
                 }
             }
+            Step::SetSession { .. } => {
+                joined_model = !matches!(r.outcome, Outcome::Err(_)) || joined_model;
+                expect_first_uplink = None;
+            }
             Step::JoinAbp => {
                 // activation by personalisation: joined without any frame on the air
                 joined_model = true;
